@@ -20,7 +20,8 @@ struct Model {
     nss_inv: HashMap<NamespaceId, String>,
     prefixes: HashMap<String, PrefixId>,
     prefixes_inv: HashMap<PrefixId, String>,
-    /// html5() registered names we do not know: "unregistered" claims are only made for strings with this marker
+    /// strings a *failed* parse may or may not have registered: only self-consistency is demanded of them
+    maybe: Vec<String>,
     log: Vec<String>,
 }
 
@@ -171,6 +172,29 @@ impl World {
                 }
                 n += 1;
             }
+            // strings of rejected documents: whatever a lookup finds must resolve back to the string
+            for m in &self.m.maybe {
+                if let Some(id) = x.name(m) {
+                    if x.name_ns_str(id) != (m.as_str(), "") {
+                        return Err(("lookup-finds-id-of-another-string".into(), format!("name({:?}) returns an id that resolves to {:?}", m, x.name_ns_str(id))));
+                    }
+                    if let Some(((l, u), _)) = self.m.names_inv.get(&id).map(|k| (k.clone(), ())) {
+                        if l != *m || !u.is_empty() {
+                            return Err(("different-strings-same-id".into(), format!("name({:?}) returns the id registered for {{{}}}{}", m, u, l)));
+                        }
+                    }
+                }
+                if let Some(id) = x.prefix(m) {
+                    if x.prefix_str(id) != m {
+                        return Err(("lookup-finds-id-of-another-string".into(), format!("prefix({:?}) returns an id that resolves to {:?}", m, x.prefix_str(id))));
+                    }
+                }
+                if let Some(id) = x.namespace(m) {
+                    if x.namespace_str(id) != m {
+                        return Err(("lookup-finds-id-of-another-string".into(), format!("namespace({:?}) returns an id that resolves to {:?}", m, x.namespace_str(id))));
+                    }
+                }
+            }
             // built-ins
             if x.namespace_str(x.no_namespace()) != "" || x.prefix_str(x.empty_prefix()) != "" || x.prefix_str(x.xml_prefix()) != "xml" || x.namespace_str(x.xml_namespace()) != XML_NS {
                 return Err(("built-in-ids".into(), "a built-in namespace / prefix id does not resolve to its standard string".into()));
@@ -223,7 +247,7 @@ fn short_history(rng: &mut Rng, ctx: &mut Ctx) -> Result<(), (Bad, Vec<String>)>
             fresh += 1;
             format!("f{}_{}", fresh, rng.below(1000))
         };
-        let which = rng.below(12);
+        let which = rng.below(13);
         // drive either the original or (after cloning) the clone
         let target: &mut World = match (&mut clone, rng.bool()) {
             (Some(c), true) => c,
@@ -285,6 +309,34 @@ fn short_history(rng: &mut Rng, ctx: &mut Ctx) -> Result<(), (Bad, Vec<String>)>
                     }
                 }
             }
+            10 => {
+                // a rejected document that mentions fresh names: afterwards ids must still be one-to-one
+                fresh += 1;
+                let (e, at, pfx) = (format!("fe{}", fresh), format!("fat{}", fresh), format!("fpx{}", fresh));
+                let uri = format!("urn:fu{}", fresh);
+                let text = match rng.below(3) {
+                    0 => format!("<{e} {at}=\"v\"><{pfx}:x xmlns:{pfx}=\"{uri}\"></{e}>"),
+                    1 => format!("<{e} {at}=\"v\" {at}=\"w\"/>"),
+                    _ => format!("<{e}><{pfx}:y/></{e}>"),
+                };
+                log.push(format!("parse({:?}) [rejected]", text));
+                let r = guard(|| target.xot.parse(&text));
+                match r {
+                    Ok(Err(_)) => {}
+                    Ok(Ok(_)) => return Err((("parse-accepted-ill-formed".into(), text), log.clone())),
+                    Err(p) => return Err((("panic".into(), p.short()), log.clone())),
+                }
+                for m in [e, at, pfx, uri, "x".to_string(), "y".to_string()] {
+                    target.m.maybe.push(m);
+                }
+                // the very next registrations are fresh strings
+                fresh += 1;
+                let f1 = format!("after{}", fresh);
+                log.push(format!("add_name({:?}); add_prefix({:?}); add_namespace({:?})", f1, f1, f1));
+                tr!(target.reg_name(&f1, "", "add_name"));
+                tr!(target.reg_prefix(&f1, "add_prefix"));
+                tr!(target.reg_ns(&f1, "add_namespace"));
+            }
             8 => {
                 log.push("html5()".to_string());
                 let _ = guard(|| {
@@ -310,6 +362,21 @@ fn short_history(rng: &mut Rng, ctx: &mut Ctx) -> Result<(), (Bad, Vec<String>)>
             let n = tr!(c.check_all(&c.xot, 1));
             ctx.add("id_resolutions_checked", n);
             ctx.count("clone_checks");
+        }
+        // Clone::clone_from into a store with another history must give the same store
+        if rng.chance(1, 6) {
+            let mut t = Xot::new();
+            for k in 0..rng.range(0, 5) {
+                t.add_prefix(&format!("old{}", k));
+                t.add_name(&format!("oldn{}", k));
+                t.add_namespace(&format!("urn:old{}", k));
+            }
+            if guard(|| t.clone_from(&w.xot)).is_err() {
+                return Err((("panic".into(), "Xot::clone_from panicked".into()), log.clone()));
+            }
+            let n = tr!(w.check_all(&t, 1));
+            ctx.add("id_resolutions_checked", n);
+            ctx.count("clone_from_checks");
         }
     }
     ctx.add("registrations", (w.m.names.len() + w.m.nss.len() + w.m.prefixes.len()) as u64);
@@ -409,6 +476,7 @@ impl Monitor for C08 {
             ("long_history_checkpoints", 16),
             ("id_resolutions_checked", 1_000_000),
             ("clone_checks", 1_000),
+            ("clone_from_checks", 500),
         ]
     }
     fn assumptions(&self) -> Vec<String> {
